@@ -310,6 +310,15 @@ def check(ctx):
     if not ok:
         ctx.violation('C14.R5', F, ps, Model.qual(ps), 'the reported line is no longer the line of the parse exception', stmt='e.lineno')
     if pre is not None:
+        # the pre-pass receives the caller's text itself: any other rewriting of the text before it (replacing characters,
+        # normalising line ends) changes the lines and columns the grammar reports
+        pps = sem.paths(ps, positional=True) or []
+        pre_calls = {ev[1] for p_ in pps for ev in p_.events if ev[0] == 'call' and sem.callee_name(ev[3]) == pre.name}
+        ok = bool(pre_calls) and all(t_ == '%s(ARG0)' % pre.name for t_ in pre_calls)
+        ctx.instance('C14.R5', 'the comment pre-pass is given the unmodified input text (%s)' % sorted(pre_calls), 'ok' if ok else 'VIOLATION', node=ps, file=F)
+        if not ok:
+            ctx.violation('C14.R5', F, ps, Model.qual(ps), 'the text is rewritten before the comment pre-pass and the grammar see it (%s): line and column of a reported error no longer refer '
+                          'to the original text (e.g. CR LF counted as two lines)' % sorted(pre_calls), stmt='input rewritten before parsing')
         # the pre-pass is inside the try (its own ParseSyntaxException is mapped too) and its result is what is parsed
         tr = [n for n in walk_no_nested(ps) if isinstance(n, ast.Try)]
         ok = bool(tr) and any(isinstance(c, ast.Call) and isinstance(c.func, ast.Name) and c.func.id == pre.name for s in tr[0].body for c in ast.walk(s))
